@@ -25,7 +25,7 @@ theorem iterHead_fields (c : Cfg) (sel : Int) (tol : σ) (s : St σ ν) :
     and the returned Boolean is their conjunction over the first `nev` -/
 theorem iterHead_conv (c : Cfg) (sel : Int) (tol : σ) (s s1 : St σ ν) (b : Bool)
     (h : iterHead K c sel tol s = (some b, s1)) :
-    s1.conv = convFlags K tol s1 ∧ b = (s1.conv.take c.nev).all id := by
+    s1.conv = convFlags K tol s1 ∧ b = (decide (c.nev ≤ s1.conv.length) && (s1.conv.take c.nev).all id) := by
   have e : iterHead K c sel tol s =
       (if !(computeEigenPairs K { headState K c s with sizes := (headState K c s).sizes ++ [(headState K c s).basis.length] }).1
        then (none, (computeEigenPairs K { headState K c s with sizes := (headState K c s).sizes ++ [(headState K c s).basis.length] }).2)
@@ -41,7 +41,7 @@ theorem iterHead_conv (c : Cfg) (sel : Int) (tol : σ) (s s1 : St σ ν) (b : Bo
 
 /-- post-condition of a `Successful` exit -/
 def SuccPost (c : Cfg) (tol : σ) (s : St σ ν) : Prop :=
-  s.conv = convFlags K tol s ∧ (s.conv.take c.nev).all id = true
+  s.conv = convFlags K tol s ∧ c.nev ≤ s.conv.length ∧ (s.conv.take c.nev).all id = true
 
 theorem loop_successful (c : Cfg) (corr : List (Pair σ ν) → List ν) (sel : Int) (tol : σ) (maxit fuel : Nat) (s : St σ ν)
     (h0 : s.info ≠ .successful) (h : (loop K c corr sel tol maxit fuel s).info = .successful) :
@@ -58,7 +58,9 @@ theorem loop_successful (c : Cfg) (corr : List (Pair σ ν) → List ν) (sel : 
     | none => simp at h
     | some true =>
       have := iterHead_conv K c sel tol s s1 true hh
-      exact ⟨this.1, this.2.symm⟩
+      have h2 := this.2.symm
+      rw [Bool.and_eq_true, decide_eq_true_eq] at h2
+      exact ⟨this.1, h2.1, h2.2⟩
     | some false =>
       simp only at h ⊢
       split at h
@@ -71,8 +73,8 @@ theorem loop_successful (c : Cfg) (corr : List (Pair σ ν) → List ν) (sel : 
 
 /-- the flags of the first `nev` pairs and the return value after a `Successful` exit -/
 theorem succPost_consequences (c : Cfg) (tol : σ) (s : St σ ν) (h : SuccPost K c tol s) :
-    (∀ p ∈ s.pairs.take c.nev, K.lt (K.norm p.residue) tol = true) ∧ returnValue c s = min c.nev s.pairs.length := by
-  obtain ⟨h1, h2⟩ := h
+    (∀ p ∈ s.pairs.take c.nev, K.lt (K.norm p.residue) tol = true) ∧ returnValue c s = c.nev ∧ c.nev ≤ s.pairs.length := by
+  obtain ⟨h1, hlen, h2⟩ := h
   have hall : ∀ b ∈ s.conv.take c.nev, b = true := by
     intro b hb
     have := List.all_eq_true.mp h2 b hb
@@ -86,7 +88,9 @@ theorem succPost_consequences (c : Cfg) (tol : σ) (s : St σ ν) (h : SuccPost 
     have : (s.conv.take c.nev).count true = (s.conv.take c.nev).length := by
       rw [List.count_eq_length]
       intro b hb; exact (hall b hb).symm
-    rw [this, List.length_take, h1, convFlags, List.length_map]
+    have hl : s.conv.length = s.pairs.length := by rw [h1, convFlags, List.length_map]
+    rw [this, List.length_take]
+    omega
 
 /-! ### iteration count and sizes -/
 
